@@ -63,6 +63,34 @@ func (k SettlementKeeper) CreateUTXR(ctx sdk.Context, tenantId uint64, utxr *typ
 	return utxrId, nil
 }
 
+// ImportUTXR stores a UTXR under the id it was exported with (genesis import)
+func (k SettlementKeeper) ImportUTXR(ctx sdk.Context, tenantId, utxrId uint64, utxr *types.UTXR) error {
+	store := ctx.KVStore(k.storeKey)
+	if k.HasUTXRByRequestId(ctx, tenantId, utxr.RequestId) {
+		return sdkerrors.Wrapf(types.ErrDuplicateRequestId, "UTXR with [request ID: %s] [tenant ID: %d] already exists.", utxr.RequestId, tenantId)
+	}
+	if store.Has(types.UTXRStoreKey(tenantId, utxrId)) {
+		return sdkerrors.Wrapf(types.ErrInvalidRequest, "UTXR with [tenant ID: %d] [utxr ID: %d] already exists.", tenantId, utxrId)
+	}
+
+	for _, recipient := range utxr.Recipients {
+		accAddr := sdk.AccAddress(recipient.Address.Bytes())
+		if !k.ak.HasAccount(ctx, accAddr) {
+			k.ak.SetAccount(ctx, k.ak.NewAccountWithAddress(ctx, accAddr))
+		}
+	}
+
+	store.Set(types.UTXRStoreKey(tenantId, utxrId), k.cdc.MustMarshal(utxr))
+	store.Set(types.UTXRStoreByRequestIdKey(tenantId, utxr.RequestId), sdk.Uint64ToBigEndian(utxrId))
+
+	// ids handed out later continue after the largest imported one
+	if bz := store.Get(types.LastUtxrIdStoreKey(tenantId)); bz == nil || sdk.BigEndianToUint64(bz) < utxrId {
+		store.Set(types.LastUtxrIdStoreKey(tenantId), sdk.Uint64ToBigEndian(utxrId))
+	}
+
+	return nil
+}
+
 // DeleteUTXR deletes UTXR and UTXR ID from the store by its tenantId and utxrId
 func (k SettlementKeeper) deleteUTXR(ctx sdk.Context, tenantId, utxrId uint64) error {
 	store := ctx.KVStore(k.storeKey)
